@@ -163,6 +163,7 @@ type Harness struct {
 	Quiet     bool
 	NoModel   map[string]bool
 	Race      bool // native replay under go test -race
+	CollectAll bool
 }
 
 // Result of one harness.
@@ -209,7 +210,7 @@ func (c *Ctx) runEntry(prog *symgo.Program, h Harness, fn *ssa.Function) *Result
 	}
 	cfg := symgo.Config{
 		Name: h.Name, Entry: fn, Workers: workers, Solver: os.Getenv("VERIF_SOLVER"),
-		MaxSteps: h.MaxSteps, MaxPaths: h.MaxPaths, PanicOK: h.PanicOK, TimeoutMs: h.TimeoutMs, UnwindCex: h.UnwindCex,
+		MaxSteps: h.MaxSteps, MaxPaths: h.MaxPaths, PanicOK: h.PanicOK, TimeoutMs: h.TimeoutMs, UnwindCex: h.UnwindCex, CollectAll: h.CollectAll,
 		Setup: func(in *symgo.Interp) { in.Params = h.Params; in.NoModel = h.NoModel },
 	}
 	if c.Thorough() {
